@@ -3,7 +3,7 @@
    of its ideal sequence - the matching part of the committed order that follows the requested id up to the cut-off
    read at registration, then the matching part of everything committed after the cut-off - and equals it while the
    subscriber is live and has not been cut off. *)
-From Mercure Require Import Base Hub HubProofs HubProofs2 HubProofs6.
+From Mercure Require Import Base Hub HubProofs HubProofs2 HubProofs4 HubProofs6.
 From Coq Require Import Lia.
 
 Definition prefix {A} (a b : list A) : Prop := exists r, b = a ++ r.
@@ -590,5 +590,250 @@ Section P.
       unfold SubOk, new_sub. sproj. cbn [length N.to_nat]. split; [lia|]. split; [reflexivity|]. split; [apply prefix_nil|]. auto. }
     revert H0. generalize (winit true 0 reqs pubs).
     induction sched as [|a sched IH]; intros w H0; [exact H0|]. cbn. apply IH. apply inv_wstep. assumption.
+  Qed.
+  (* ---- FIFO: what the handler has written, then what is buffered, is what was sent ---- *)
+  Definition fifo (i : nat) (s : hsub) : Prop := hs_sent s = hs_recvd s ++ hs_out s.
+  Definition Fifo (st : hstate) : Prop := AllSubs fifo st.
+
+  Lemma fifo_dispatch i s u h : fifo i s -> fifo i (fst (s_dispatch s u h)).
+  Proof.
+    unfold fifo, Hub.s_dispatch. intros H. destruct (hs_disc s); [assumption|].
+    destruct (negb h && negb (hs_ready s)); [assumption|].
+    destruct (Nat.ltb (length (hs_out s)) cap); cbn; [rewrite H, app_assoc; reflexivity|assumption].
+  Qed.
+  Lemma fifo_disconnect i s : fifo i s -> fifo i (s_disconnect s).
+  Proof. unfold fifo, s_disconnect. intros H. destruct (hs_disc s); assumption. Qed.
+
+  Lemma fifo_publish st u coin : Fifo st -> Fifo (fst (publish st u coin)).
+  Proof.
+    intros H. unfold Hub.publish.
+    destruct (h_closed_done st && h_persistent st); [exact H|].
+    destruct (Nat.eqb (h_close st) 2); [exact H|].
+    destruct (existsb _ (h_index st)); [exact H|].
+    cbn [fst]. unfold Fifo, AllSubs, set_subs. cbn [h_subs].
+    destruct (h_persistent st); cbn [h_subs h_index]; apply fan_out_all; auto; intros; apply fifo_dispatch; assumption.
+  Qed.
+
+  Lemma fifo_add_event st i a c st1 : Fifo st -> add_event st i a c = Some st1 -> Fifo st1.
+  Proof.
+    intros H. unfold Hub.add_event. destruct (negb tracking); [intros E; inversion E; subst; exact H|].
+    destruct (h_closed st); [intros E; inversion E; subst; exact H|].
+    pose proof (fifo_publish st (ev_id i a) c H) as Hp.
+    destruct (publish st (ev_id i a) c) as [st' []]; cbn [fst] in Hp; intros E; inversion E; subst; try exact H.
+    intros j sj Hj. apply (Hp j sj). exact Hj.
+  Qed.
+
+  Lemma fifo_set_sub st i s' : Fifo st -> fifo i s' -> Fifo (set_sub st i s').
+  Proof.
+    intros H Hi j sj Hj. unfold set_sub, set_subs in Hj. cbn [h_subs] in Hj.
+    apply nth_upd_cases in Hj. destruct Hj as [(<- & -> & _)|(_ & Hj)]; [exact Hi|eapply H; eassumption].
+  Qed.
+
+  Lemma fifo_set_phase st i p : Fifo st -> Fifo (set_phase st i p).
+  Proof.
+    intros H. unfold set_phase. destruct (nth_error (h_subs st) i) as [s|] eqn:E; [|exact H].
+    apply fifo_set_sub; [assumption|]. exact (H _ _ E).
+  Qed.
+
+  Lemma fifo_sub_step st i s c st' : Fifo st -> nth_error (h_subs st) i = Some s -> sub_step st i s c = Some st' -> Fifo st'.
+  Proof.
+    intros H E. pose proof (H _ _ E) as Hs. unfold fifo in Hs. unfold Hub.sub_step.
+    destruct (hs_phase s) eqn:Ep; try discriminate.
+    - destruct (add_event st i true c) as [st1|] eqn:Ea; [|discriminate]. cbn. intros E'; inversion E'; subst.
+      apply fifo_set_phase. eapply fifo_add_event; eassumption.
+    - destruct (h_closed st).
+      + destruct (add_event st i false c) as [st1|] eqn:Ea; [|discriminate]. cbn. intros E'; inversion E'; subst.
+        apply fifo_set_phase. eapply fifo_add_event; eassumption.
+      + intros E'; inversion E'; subst. apply (fifo_set_sub (set_index st (h_index st ++ [i]))); [exact H|exact Hs].
+    - destruct (h_persistent st); destruct (hs_req s); try (intros E'; inversion E'; subst; apply fifo_set_sub; [exact H|exact Hs]).
+      all: destruct (h_closed_done st); try (intros E'; inversion E'; subst; apply fifo_set_sub; [exact H|exact Hs]).
+      all: destruct (add_event st i false c) as [st1|] eqn:Ea; [|discriminate]; cbn; intros E'; inversion E'; subst;
+           apply fifo_set_phase; eapply fifo_add_event; eassumption.
+    - destruct snap as [|[sq id] snap']; [intros E'; inversion E'; subst; apply fifo_set_sub; [exact H|exact Hs]|].
+      destruct (negb found); [intros E'; inversion E'; subst; apply fifo_set_sub; [exact H|exact Hs]|].
+      destruct (N.ltb (hs_cut s) sq); [intros E'; inversion E'; subst; apply fifo_set_sub; [exact H|exact Hs]|].
+      destruct (mt i id); [|intros E'; inversion E'; subst; apply fifo_set_sub; [exact H|exact Hs]].
+      pose proof (fifo_dispatch i s id true Hs) as Hd. destruct (s_dispatch s id true) as [s' ok]. cbn [fst] in Hd.
+      destruct ok; intros E'; inversion E'; subst; apply fifo_set_sub; [exact H|exact Hd|exact H|exact Hd].
+    - destruct (hs_disc s); intros E'; inversion E'; subst; [apply (fifo_set_sub st)|apply fifo_set_sub]; try exact H; exact Hs.
+    - destruct rest as [|u rest'].
+      + intros E'; inversion E'; subst. apply (fifo_set_sub st); [exact H|exact Hs].
+      + destruct (Nat.ltb (length (hs_out s)) cap); intros E'; inversion E'; subst.
+        * apply fifo_set_sub; [exact H|]. unfold fifo, with_phase, s_send. sproj. rewrite Hs, app_assoc. reflexivity.
+        * apply (fifo_set_sub st); [exact H|exact Hs].
+    - destruct (h_closed st); intros E'; inversion E'; subst.
+      + apply fifo_set_sub; [exact H|exact Hs].
+      + apply (fifo_set_sub (set_index st _)); [exact H|exact Hs].
+    - destruct (add_event st i false c) as [st1|] eqn:Ea; [|discriminate]. cbn. intros E'; inversion E'; subst.
+      apply (fifo_set_phase st1). eapply fifo_add_event; eassumption.
+  Qed.
+
+  Theorem fifo_wstep w a : Fifo (w_st w) -> Fifo (w_st (wstep mt cap tracking w a)).
+  Proof.
+    intros H. destruct a as [t|t coin|i coin|i|i| |]; cbn [Hub.wstep].
+    - destruct (nth_error (w_pubs w) t) as [p|]; [|exact H].
+      destruct (pb_todo p); [exact H|]. destruct (pb_checked p); [exact H|]. destruct (h_closed (w_st w)); exact H.
+    - destruct (nth_error (w_pubs w) t) as [p|]; [|exact H].
+      destruct (pb_todo p) as [|u todo]; [exact H|]. destruct (pb_checked p); [|exact H].
+      pose proof (fifo_publish (w_st w) u coin H) as Hp.
+      destruct (publish (w_st w) u coin) as [st' []]; cbn [fst] in Hp; cbn [set_pub w_st]; try exact H.
+      intros j sj Hj. eapply Hp. exact Hj.
+    - destruct (nth_error (h_subs (w_st w)) i) as [s|] eqn:E; [|exact H].
+      destruct (sub_step (w_st w) i s coin) as [st'|] eqn:Es; [|exact H]. eapply fifo_sub_step; eassumption.
+    - destruct (nth_error (h_subs (w_st w)) i) as [s|] eqn:E; [|exact H].
+      destruct (recv_step (w_st w) i s) as [st'|] eqn:Es; [|exact H]. cbn [w_st].
+      pose proof (H _ _ E) as Hs. unfold fifo in Hs. unfold recv_step in Es. destruct (hs_phase s); try discriminate.
+      destruct (hs_out s) as [|u o] eqn:Eo.
+      + destruct (hs_closed s); [|discriminate]. inversion Es; subst. apply fifo_set_sub; [exact H|]. unfold fifo, with_phase. sproj. exact Hs.
+      + inversion Es; subst. apply fifo_set_sub; [exact H|]. unfold fifo. sproj. rewrite Hs, <- app_assoc. reflexivity.
+    - destruct (nth_error (h_subs (w_st w)) i) as [s|] eqn:E; [|exact H].
+      destruct (leave_step (w_st w) i s) as [st'|] eqn:Es; [|exact H]. cbn [w_st].
+      unfold leave_step in Es. destruct (hs_phase s); try discriminate. inversion Es; subst.
+      apply fifo_set_sub; [exact H|]. exact (fifo_disconnect i s (H _ _ E)).
+    - destruct (close_step (w_st w)) as [st'|] eqn:Es; [|exact H]. cbn [w_st].
+      unfold close_step in Es. destruct (h_close (w_st w)) as [|[|[|]]]; try discriminate.
+      + inversion Es; subst. exact H.
+      + destruct (existsb _ (h_index (w_st w))); [discriminate|]. inversion Es; subst.
+        unfold Fifo, AllSubs, set_close, set_subs. cbn [h_subs]. apply disconnect_all_all; auto using fifo_disconnect.
+      + destruct (h_persistent (w_st w) && _); [discriminate|]. inversion Es; subst. exact H.
+    - intros j sj Hj. cbn [w_st] in Hj. unfold crash in Hj. cbn [h_subs] in Hj.
+      rewrite nth_error_map in Hj. destruct (nth_error (h_subs (w_st w)) j) as [s0|] eqn:E; [|discriminate].
+      inversion Hj; subst. pose proof (H _ _ E) as Hs. destruct (hs_phase s0); exact Hs.
+  Qed.
+
+  Theorem fifo_reachable persistent size reqs pubs sched :
+    Fifo (w_st (wrun mt cap tracking (winit persistent size reqs pubs) sched)).
+  Proof.
+    unfold Hub.wrun.
+    assert (H0 : Fifo (w_st (winit persistent size reqs pubs))).
+    { intros i s Hi. cbn in Hi. rewrite nth_error_map in Hi. destruct (nth_error reqs i); [|discriminate]. inversion Hi; subst. reflexivity. }
+    revert H0. generalize (winit persistent size reqs pubs).
+    induction sched as [|a sched IH]; intros w H0; [exact H0|]. cbn. apply IH. apply fifo_wstep. exact H0.
+  Qed.
+  (* ---- the ideal sequence is the matching part of the committed order from one point on ---- *)
+  Lemma after_notin r l : ~ In r l -> after r l = [].
+  Proof.
+    induction l as [|x l IH]; intros H; [reflexivity|]. cbn [after].
+    destruct (N.eqb_spec r x) as [->|Hne]; [exfalso; apply H; left; reflexivity|]. apply IH. intros Hin. apply H. right. assumption.
+  Qed.
+
+  Lemma after_app_in r l1 l2 : In r l1 -> after r (l1 ++ l2) = after r l1 ++ l2.
+  Proof.
+    induction l1 as [|x l1 IH]; intros H; [destruct H|]. cbn [app after].
+    destruct (N.eqb_spec r x) as [->|Hne]; [reflexivity|]. apply IH. destruct H as [->|H]; [congruence|assumption].
+  Qed.
+
+  Lemma after_is_skipn r l : In r l -> exists k, (1 <= k <= length l)%nat /\ after r l = skipn k l.
+  Proof.
+    induction l as [|x l IH]; intros H; [destruct H|]. cbn [after].
+    destruct (N.eqb_spec r x) as [->|Hne].
+    - exists 1%nat. cbn. split; [lia|reflexivity].
+    - destruct H as [->|H]; [congruence|]. destruct (IH H) as (k & Hk & E). exists (S k). cbn [length skipn]. split; [lia|assumption].
+  Qed.
+
+  Lemma skipn_firstn_app {A} k n (l : list A) : (k <= n <= length l)%nat -> skipn k (firstn n l) ++ skipn n l = skipn k l.
+  Proof.
+    intros H. rewrite <- (firstn_skipn n l) at 3. rewrite skipn_app, firstn_length.
+    replace (k - Nat.min n (length l))%nat with 0%nat by lia. reflexivity.
+  Qed.
+
+  Lemma ideal_is_suffix i C cut rq :
+    (N.to_nat cut <= length C)%nat ->
+    exists k, (k <= N.to_nat cut)%nat /\ ideal i C cut rq = filter (mt i) (skipn k C) /\
+      (rq = Earliest -> k = 0%nat) /\ (rq = NoReq -> k = N.to_nat cut) /\
+      (forall r, rq = ReqId r ->
+         (In r (firstn (N.to_nat cut) C) -> skipn k C = after r C) /\
+         (~ In r (firstn (N.to_nat cut) C) -> k = N.to_nat cut)).
+  Proof.
+    intros Hc. unfold ideal, hist_part, live_part. set (n := N.to_nat cut) in *. destruct rq as [| |r].
+    - exists n. cbn [filter app]. repeat split; try discriminate; auto.
+    - exists 0%nat. rewrite <- filter_app, firstn_skipn. cbn [skipn]. repeat split; try discriminate; auto; lia.
+    - destruct (in_dec N.eq_dec r (firstn n C)) as [Hin|Hnin].
+      + destruct (after_is_skipn _ _ Hin) as (k & Hk & E). rewrite firstn_length in Hk.
+        exists k. rewrite <- filter_app, E, skipn_firstn_app by lia.
+        split; [lia|]. split; [reflexivity|]. split; [discriminate|]. split; [discriminate|].
+        intros r' Er. inversion Er; subst r'. split; [|contradiction]. intros _.
+        rewrite <- (firstn_skipn n C) at 2. rewrite after_app_in by assumption. rewrite E. symmetry. apply skipn_firstn_app. lia.
+      + exists n. rewrite (after_notin _ _ Hnin). cbn [filter app].
+        split; [lia|]. split; [reflexivity|]. split; [discriminate|]. split; [discriminate|].
+        intros r' Er. inversion Er; subst r'. split; [contradiction|auto].
+  Qed.
+
+  (* ---- the statements of C06 / C07 ---- *)
+  Notation wrun := (wrun mt cap tracking).
+
+  Theorem replay_then_live reqs pubs sched i s :
+    let st := w_st (wrun (winit true 0 reqs pubs) sched) in
+    nth_error (h_subs st) i = Some s ->
+    let target := ideal i (h_committed st) (hs_cut s) (hs_req s) in
+    (N.to_nat (hs_cut s) <= length (h_committed st))%nat /\
+    prefix (hs_sent s) target /\ prefix (hs_recvd s) target /\ hs_sent s = hs_recvd s ++ hs_out s /\
+    (forall left, hs_phase s = PLive left -> hs_disc s = false -> hs_sent s = target).
+  Proof.
+    intros st E target. destruct (inv_reachable reqs pubs sched) as (_ & _ & _ & _ & _ & _ & Hs).
+    destruct (Hs _ _ E) as (A & B & D & F). pose proof (fifo_reachable true 0 reqs pubs sched _ _ E) as Hf. unfold fifo in Hf.
+    split; [assumption|]. split; [assumption|]. split; [eapply prefix_trans; [|exact D]; rewrite Hf; apply prefix_app|].
+    split; [assumption|]. intros left Ep Hd. fold st in F. rewrite Ep in F. destruct (F Hd) as (_ & _ & G). exact G.
+  Qed.
+
+  Theorem stored_order_is_commit_order reqs pubs sched :
+    let st := w_st (wrun (winit true 0 reqs pubs) sched) in
+    h_db st = entries_from 1 (h_committed st) /\ h_seq st = N.of_nat (length (h_committed st)).
+  Proof. intros st. destruct (inv_reachable reqs pubs sched) as (_ & _ & A & B & _). auto. Qed.
+
+  Lemma grows_run w sched : I09 (w_st w) -> grows (w_st w) (w_st (wrun w sched)).
+  Proof.
+    revert w. induction sched as [|a sched IH]; intros w H; [exists []; rewrite app_nil_r; reflexivity|].
+    unfold Hub.wrun. cbn [fold_left]. destruct (i09_wstep mt cap tracking w a H) as [H1 [l1 E1]].
+    destruct (IH _ H1) as [l2 E2]. exists (l1 ++ l2). unfold Hub.wrun in E2. rewrite E2, E1, app_assoc. reflexivity.
+  Qed.
+
+  (* real-time order: an update acknowledged before another one is committed precedes it in the single order *)
+  Theorem commit_order_respects_real_time persistent size reqs pubs sched1 sched2 u v :
+    let w := wrun (winit persistent size reqs pubs) sched1 in
+    let w' := wrun w sched2 in
+    In u (h_acked (w_st w)) -> ~ In v (h_committed (w_st w)) -> In v (h_committed (w_st w')) ->
+    exists l1 l2 l3, h_committed (w_st w') = l1 ++ u :: l2 ++ v :: l3.
+  Proof.
+    intros w w' Hu Hv Hv'. pose proof (durable_reachable mt cap tracking persistent size reqs pubs sched1) as H9. fold w in H9.
+    pose proof (i_acked _ H9) as Hack. rewrite Forall_forall in Hack. specialize (Hack _ Hu).
+    destruct (grows_run w sched2 H9) as [l E]. fold w' in E. rewrite E in Hv'. apply in_app_or in Hv'. destruct Hv' as [?|Hl]; [contradiction|].
+    apply in_split in Hack. destruct Hack as (a & b & Ea). apply in_split in Hl. destruct Hl as (c & d & El).
+    exists a, (b ++ c), d. rewrite E, Ea, El. repeat (rewrite <- app_assoc; cbn [app]). reflexivity.
+  Qed.
+
+  Lemma NoDup_app_l {A} (a b : list A) : NoDup (a ++ b) -> NoDup a.
+  Proof.
+    induction a as [|x a IH]; intros H; [constructor|]. cbn in H. inversion H; subst.
+    constructor; [intros Hin; apply H2; apply in_or_app; left; assumption|apply IH; assumption].
+  Qed.
+  Lemma NoDup_app_r {A} (a b : list A) : NoDup (a ++ b) -> NoDup b.
+  Proof. induction a as [|x a IH]; intros H; [exact H|]. cbn in H. inversion H; subst. apply IH. assumption. Qed.
+
+  Lemma NoDup_skipn {A} k (l : list A) : NoDup l -> NoDup (skipn k l).
+  Proof. intros H. rewrite <- (firstn_skipn k l) in H. apply NoDup_app_r in H. assumption. Qed.
+
+  Lemma NoDup_prefix {A} (a b : list A) : prefix a b -> NoDup b -> NoDup a.
+  Proof. intros [r ->] H. apply NoDup_app_l in H. assumption. Qed.
+
+  (* exactly once: if the committed ids are distinct, nothing is sent (or received) twice *)
+  Theorem exactly_once reqs pubs sched i s :
+    let st := w_st (wrun (winit true 0 reqs pubs) sched) in
+    nth_error (h_subs st) i = Some s -> NoDup (h_committed st) -> NoDup (hs_sent s) /\ NoDup (hs_recvd s).
+  Proof.
+    intros st E ND. destruct (replay_then_live reqs pubs sched i s E) as (Hc & P1 & P2 & _).
+    destruct (ideal_is_suffix i (h_committed st) (hs_cut s) (hs_req s) Hc) as (k & _ & Ek & _).
+    fold st in P1, P2. rewrite Ek in P1, P2.
+    split; eapply NoDup_prefix; try eassumption; apply NoDup_filter, NoDup_skipn; assumption.
+  Qed.
+  (* live delivery: a subscriber that is live and was not cut off has been sent, after its replay, exactly the matching
+     updates committed after its registration, in commit order *)
+  Theorem live_exactly_the_matching_suffix reqs pubs sched i s left :
+    let st := w_st (wrun (winit true 0 reqs pubs) sched) in
+    nth_error (h_subs st) i = Some s -> hs_phase s = PLive left -> hs_disc s = false ->
+    hs_sent s = hist_part i (h_committed st) (hs_cut s) (hs_req s) ++
+                filter (mt i) (skipn (N.to_nat (hs_cut s)) (h_committed st)).
+  Proof.
+    intros st E Ep Hd. destruct (replay_then_live reqs pubs sched i s E) as (_ & _ & _ & _ & G). exact (G left Ep Hd).
   Qed.
 End P.
